@@ -1,0 +1,44 @@
+//! Access to crate-private items for the external verification harness.
+//!
+//! Only compiled with the `verif-hooks` cargo feature. Nothing here changes
+//! behaviour: every item is a plain re-export or a thin read-only wrapper.
+
+use std::path::{Path, PathBuf};
+
+pub mod generator_utils {
+    pub use crate::generator::utils::{
+        break_concat, break_equal, break_long_string, break_minus, break_variable_arguments,
+        count_new_lines, ends_with_prefix, should_break_with_space, starts_with_parenthese,
+        write_interpolated_string_segment, write_number, write_string,
+    };
+}
+
+pub fn is_valid_identifier(identifier: &str) -> bool {
+    crate::process::utils::is_valid_identifier(identifier)
+}
+
+/// The first `count` names produced by the identifier generator used by rules.
+pub fn generated_identifiers(count: usize) -> Vec<String> {
+    let mut permutator = crate::process::utils::identifier_permutator();
+    (0..count)
+        .map(|_| crate::process::utils::generate_identifier(&mut permutator))
+        .collect()
+}
+
+pub fn normalize_path(path: &Path) -> PathBuf {
+    crate::utils::normalize_path(path)
+}
+
+pub fn normalize_path_with_current_dir(path: &Path) -> PathBuf {
+    crate::utils::normalize_path_with_current_dir(path)
+}
+
+pub fn to_expression<T: serde::Serialize>(value: &T) -> Result<crate::nodes::Expression, String> {
+    crate::process::to_expression(value).map_err(|err| err.to_string())
+}
+
+pub fn filter_pattern_matches(pattern: &str, path: &Path) -> Result<bool, String> {
+    crate::utils::FilterPattern::new(pattern.to_owned())
+        .map(|pattern| pattern.matches(path))
+        .map_err(|err| err.to_string())
+}
